@@ -349,6 +349,63 @@ theorem detailOK_iff (maxBoard : Nat) (e : Entry) (hv : e.bid + 1 ≤ maxBoard) 
     detailOK maxBoard e = (e.b.name.getD 0 0 != 0) := by
   simp [detailOK, validBid, hv]
 
+/-! ### the class listings (slot order, paged by `next_bid`) -/
+
+/-- bbs.LoadFullClassBoards: for every board table in slot order (`slots[i].bid = i`, at most MAX_BOARD slots) and
+every page size `n ≥ 1`, following `next_bid` from bid 1 ends and returns every class (non-vacated group/symbolic
+board) of the table exactly once, in slot order, in pages of `n` — in whichever slot the class sits. -/
+theorem listing_pagewalk_complete_fullclass (maxBoard : Nat) (slots : List Entry)
+    (hb : ∀ i (h : i < slots.length), slots[i].bid = i) (hlen : slots.length ≤ maxBoard) (hmb : 1 ≤ maxBoard)
+    (n : Nat) (h1 : 1 ≤ n) :
+    walkFullClass maxBoard slots (n : Int) = .ok (pagesOf n (slots.filter isClass).length (slots.filter isClass)) :=
+  walkFullClass_eq maxBoard slots hb hlen hmb n h1
+
+/-- in particular a class in the LAST slot of the table (where a newly created class lands) is returned. -/
+theorem fullclass_returns_last_slot (maxBoard : Nat) (slots : List Entry) (e : Entry)
+    (hb : ∀ i (h : i < (slots ++ [e]).length), (slots ++ [e])[i].bid = i) (hlen : (slots ++ [e]).length ≤ maxBoard)
+    (hmb : 1 ≤ maxBoard) (he : isClass e = true) (n : Nat) (h1 : 1 ≤ n) :
+    ∃ pages, walkFullClass maxBoard (slots ++ [e]) (n : Int) = .ok pages ∧ e ∈ pages.flatten := by
+  refine ⟨_, walkFullClass_eq maxBoard (slots ++ [e]) hb hlen hmb n h1, ?_⟩
+  rw [pagesOf_flatten]
+  simp [he]
+
+/-- an invalid start bid is refused. -/
+theorem fullclass_invalid_bid (maxBoard : Nat) (slots : List Entry) (b n : Int)
+    (h : ¬ (1 ≤ b ∧ b ≤ Int.ofNat maxBoard)) : loadFullClass maxBoard slots b n = .error .invalidBid := by
+  unfold loadFullClass; rw [if_pos h]
+
+/-- bbs.LoadClassBoards, first request after a (re)load (`FirstChild` zeroed by cache.SortBCache): whatever
+`ChildCount` the record stored, the answer is every sub-class of the class — the non-vacated group boards whose
+`Gid` is the class — once, in the order of the sorted view (by class for the root class 1).  No "at most
+ChildCount + 5" hypothesis any more: cache.ResolveBoardGroup runs and (fix ebc3be0) stores the number of children. -/
+theorem loadClassBoards_eq_scan (t : Tbl) (links : List (Nat × Nat)) (c : Int) (by_ : SortBy)
+    (hv : 1 ≤ c ∧ c ≤ Int.ofNat t.maxBoard) (hi : (c - 1).toNat < links.length)
+    (hlen : ∀ c' b b', (childrenOf t links c' b).length = (childrenOf t links c' b').length) :
+    ∃ st', loadClassBoards t (ClsState.fresh links) c by_ = .ok (subclasses t links c (byOf c by_), st') := by
+  obtain ⟨st', h, _⟩ := loadClassBoards_step t (ClsState.fresh links) c by_ hv hi hlen (clsInv_fresh t links)
+  exact ⟨st', h⟩
+
+/-- … and for EVERY history of requests on the table (any classes, any sort keys, repeated): each request answers the
+full list of sub-classes — in particular a second identical request answers the same.  (`hlen`: the two sorted views
+hold the same boards, so a class has as many children by name as by class.)
+Where the `ChildCount + 5` bound of the chain walk still applies: only when the resolve is skipped, i.e. `FirstChild`
+is set and `ChildCount ≠ 0`; the invariant `ClsInv` shows that on an unchanging table `ChildCount` is then the number
+of children.  A stale state needs a write to the cache that neither re-sorts nor re-resolves — cache.ResetBoard
+without cache.SortBCache (its only caller, ptt.addBoardRecord, sorts right after); see docs/asbuilt/C11.md. -/
+theorem loadClassBoards_history (t : Tbl) (links : List (Nat × Nat)) (calls : List (Int × SortBy))
+    (hv : ∀ cb ∈ calls, 1 ≤ cb.1 ∧ cb.1 ≤ Int.ofNat t.maxBoard ∧ (cb.1 - 1).toNat < links.length)
+    (hlen : ∀ c' b b', (childrenOf t links c' b).length = (childrenOf t links c' b').length) :
+    runCalls t (ClsState.fresh links) calls = .ok (calls.map fun cb => subclasses t links cb.1 (byOf cb.1 cb.2)) :=
+  runCalls_eq t links (ClsState.fresh links) calls (fun _ => rfl) rfl hv hlen (clsInv_fresh t links)
+
+/-- `hlen` holds when both views are permutations of the same slots. -/
+theorem children_count_of_perm (t : Tbl) (links : List (Nat × Nat)) (h : t.byName.Perm t.byClass) :
+    ∀ c' b b', (childrenOf t links c' b).length = (childrenOf t links c' b').length := by
+  intro c' b b'
+  have key : (childrenOf t links c' .name).length = (childrenOf t links c' .cls).length :=
+    (h.filter _).length_eq
+  cases b <;> cases b' <;> first | rfl | exact key | exact key.symm
+
 /-- every board visited exactly once: the concatenation of the pages is the visible list (all three listings). -/
 theorem pagewalk_visits_all_name (t : Tbl) (hn : NamesLen t.nameLen t.byName)
     (hv : ∀ e ∈ t.byName, e.bid + 1 ≤ t.maxBoard) (S : SortedBy lexCmp nkey t.byName) (D : DistinctNames t.byName)
@@ -461,5 +518,29 @@ theorem details_vacated_witness :
 /-- … and the repaired code on the same table. -/
 example : (walkDetails vacTbl .name 1 true).map (·.map (·.map (·.bid))) = .ok [[2], [3]] := by rfl
 example : (walkDetails vacTbl .cls 1 false).map (·.map (·.map (·.bid))) = .ok [[3], [2]] := by rfl
+
+/-- the class listing on a table whose only (= last) slot is a class, and what a loop that stops one slot early
+(seeded change C11-r4-1: the 1-based bid compared with the slot count) would return. -/
+def oneClass : List Entry := [⟨0, ⟨nm [99, 97], [97, 97, 97, 97, 32, 161, 183, 120], true⟩⟩]
+example : (walkFullClass 100 oneClass 1).map (·.map (·.map (·.bid))) = .ok [[0]] := by rfl
+theorem fullclass_off_by_one_witness :
+    (walkFullClass 100 oneClass.dropLast 1).map (·.map (·.map (·.bid))) = .ok [[]] := by rfl
+example : loadFullClass 100 oneClass 0 1 = .error .invalidBid := by rfl
+example : loadFullClass 100 oneClass 101 1 = .error .invalidBid := by rfl
+
+/-- LoadClassBoards: class 2 with six sub-classes and stored `ChildCount` 0. -/
+def sixSubs : List Entry :=
+  (List.range 8).map fun i => ⟨i, ⟨nm [115, 48 + i], [97, 97, 97, 97, 32, 161, 183, 120], true⟩⟩
+def sixLinks : List (Nat × Nat) := [(0, 0), (1, 0), (2, 0), (2, 0), (2, 0), (2, 0), (2, 0), (2, 0)]
+def sixTbl : Tbl := ⟨100, 13, sixSubs, sixSubs⟩
+
+/-- the walk of the chain BEFORE fix ebc3be0 (ResolveBoardGroup did not store the count: the bound was the stored
+`ChildCount + 5`): only five of the six sub-classes were listed.  Key `list:children+cap`. -/
+theorem children_cap_witness :
+    (gather (fun _ => false) isClass (childrenOf sixTbl sixLinks 2 .name) (0 + 5)).map (·.bid) = [2, 3, 4, 5, 6] := by rfl
+
+/-- the repaired code lists all six, and again on the second request. -/
+example : (runCalls sixTbl (ClsState.fresh sixLinks) [(2, .name), (2, .name), (2, .cls)]).map (·.map (·.map (·.bid))) =
+    .ok [[2, 3, 4, 5, 6, 7], [2, 3, 4, 5, 6, 7], [2, 3, 4, 5, 6, 7]] := by rfl
 
 end PttVerif.C11.Props
